@@ -156,6 +156,12 @@ def main():
         check("S1 tocsr() of a CSR array is the array itself", c.tocsr() is c)
         check("S4 hasattr(v, 'indptr') holds for CSR, CSC, BSR and not for COO/LIL/DOK/DIA",
               all(hasattr(f_(m), "indptr") for f_ in (sp.csr_array, sp.csc_array, sp.bsr_array)) and not any(hasattr(f_(m), "indptr") for f_ in (sp.coo_array, sp.lil_array, sp.dok_array, sp.dia_array)))
+        t = sp.csr_array(array([[1.0, 0.0, 2.0, 0.0], [0.0, 3.0, 0.0, 0.0]]))  # trailing all-zero column
+        inferred = sp.csr_array((t.data, t.indices, t.indptr))
+        check("S5 csr_array((data, indices, indptr)) without shape infers (len(indptr) - 1, max(indices) + 1)",
+              inferred.shape == (len(t.indptr) - 1, int(t.indices.max()) + 1) == (2, 3) and inferred.shape != t.shape)
+        z = sp.csr_array((2, 3))
+        check("S5 ... and raises ValueError when indices is empty (all-zero matrix)", raises(ValueError, lambda: sp.csr_array((z.data, z.indices, z.indptr))))
         cc = sp.csc_array(m[:3])
         wrong = sp.csr_array((cc.data, cc.indices, cc.indptr), cc.shape)
         check("S2 (sanity) the triple of a CSC array read as CSR denotes ANOTHER matrix (the transpose)", not np.array_equal(wrong.toarray(), cc.toarray()) and np.array_equal(wrong.toarray(), cc.toarray().T))
